@@ -17,6 +17,8 @@ import (
 	"fmt"
 	"io"
 	"io/ioutil"
+	"net/http"
+	"net/http/httptest"
 	"sync"
 	"testing"
 	"time"
@@ -116,6 +118,42 @@ func TestVerifC20Proxy(t *testing.T) {
 		}()
 		wg.Wait()
 		r.Case("proxy/tokens", fmt.Sprintf("capacity %d", capacity), true)
+	}
+
+	// 3b. the real poll (pollOffer reports tokens.count() as its load) against a broker whose reply ends the poll
+	// at once (undecodable: after "no match" pollOffer would wait pollInterval = 5 s before polling again),
+	// while sessions take and hand back their tokens - as in SnowflakeProxy.Start with connected clients
+	{
+		srv := httptest.NewServer(http.HandlerFunc(func(w http.ResponseWriter, rq *http.Request) {
+			w.Write([]byte(`not a poll response`))
+		}))
+		savedTokens := tokens
+		for _, capacity := range []uint{0, 2} {
+			tokens = newTokens(capacity)
+			s, err := newSignalingServer(srv.URL, false)
+			if err != nil {
+				t.Fatal(err)
+			}
+			s.transport = http.DefaultTransport
+			var wg sync.WaitGroup
+			for g := 0; g < 2; g++ {
+				wg.Add(1)
+				go func() {
+					defer wg.Done()
+					for j := 0; j < 400; j++ {
+						tokens.get()
+						tokens.ret()
+					}
+				}()
+			}
+			for j := 0; j < r.N(6, 40); j++ {
+				s.pollOffer("sid", "standalone", "", make(chan struct{}))
+			}
+			wg.Wait()
+			r.Case("proxy/poll-load-vs-sessions", fmt.Sprintf("capacity %d", capacity), true)
+		}
+		tokens = savedTokens
+		srv.Close()
 	}
 
 	// 4. NAT type: the poll loop's read against checkNATType's store (its last three statements)
